@@ -32,24 +32,24 @@ Definition ldouble (a : limbs) : limbs :=
   let tmp := shr64 a1 63 in let r1 := lor64 (shl64 a1 1) last in let last := tmp in
   let r2 := lor64 (shl64 a2 1) last in
   reduce LM (r0, r1, r2).
-Definition lmul : limbs -> limbs -> limbs := g_mul.
-Definition lsquare : limbs -> limbs := g_square.
+Definition lmul : limbs -> limbs -> limbs := gl_mul.
+Definition lsquare : limbs -> limbs := gl_square.
 
 (* invert: CtOption::new(chain(self), !self.is_zero()) *)
-Definition linvert_raw (a : limbs) : limbs := chain_run limbs g_square g_mul lone invert_chain a.
+Definition linvert_raw (a : limbs) : limbs := chain_run limbs gl_square gl_mul lone invert_chain a.
 Definition linvert (a : limbs) : option limbs := if lis_zero a then None else Some (linvert_raw a).
 (* sqrt: CtOption::new(sqrt, (sqrt * &sqrt).ct_eq(self)) *)
-Definition lsqrt_raw (a : limbs) : limbs := chain_run limbs g_square g_mul lone sqrt_chain a.
+Definition lsqrt_raw (a : limbs) : limbs := chain_run limbs gl_square gl_mul lone sqrt_chain a.
 Definition lsqrt (a : limbs) : option limbs :=
-  let s := lsqrt_raw a in if leqb (g_mul s s) a then Some s else None.
+  let s := lsqrt_raw a in if leqb (gl_mul s s) a then Some s else None.
 
 (* pow_vartime (ff::Field, provided method): exponent as u64 words, least significant first;
    for e in exp.rev() { for i in (0..64).rev() { res = res.square(); if (e >> i) & 1 == 1 { res.mul_assign(self) } } } *)
 Fixpoint pow_word (a : limbs) (e : Z) (i : nat) (res : limbs) : limbs :=
   match i with
   | O => res
-  | S i' => let res := g_square res in
-            let res := if Z.testbit e (Z.of_nat i') then g_mul res a else res in
+  | S i' => let res := gl_square res in
+            let res := if Z.testbit e (Z.of_nat i') then gl_mul res a else res in
             pow_word a e i' res
   end.
 Definition lpow_vartime (a : limbs) (exp : list Z) : limbs :=
@@ -63,19 +63,18 @@ Definition lrandom_round (w0 w1 w2 : Z) : option limbs :=
 (* from_repr: read_u64_into (little endian), borrow chain against the modulus, r * R2 *)
 Definition limbs_of_bytes (bs : bytes) : limbs :=
   (Z.of_N (le_of_bytes (firstn 8 bs)), Z.of_N (le_of_bytes (firstn 8 (skipn 8 bs))), Z.of_N (le_of_bytes (firstn 8 (skipn 16 bs)))).
+Definition lfrom_canon (r : limbs) : option limbs :=
+  let '(r0, r1, r2) := r in let '(m0, m1, m2) := LM in
+  let '(_, bw) := sbb r0 m0 0 in let '(_, bw) := sbb r1 m1 bw in let '(_, bw) := sbb r2 m2 bw in
+  if Z.land (bw mod 256) 1 =? 1 then Some (gl_mul r R2) else None.
 Definition lfrom_repr (bs : bytes) : option limbs :=
-  if Nat.eqb (length bs) 24 then
-    let r := limbs_of_bytes bs in
-    let '(r0, r1, r2) := r in let '(m0, m1, m2) := LM in
-    let '(_, bw) := sbb r0 m0 0 in let '(_, bw) := sbb r1 m1 bw in let '(_, bw) := sbb r2 m2 bw in
-    if Z.land (bw mod 256) 1 =? 1 then Some (g_mul r R2) else None
-  else None.
+  if Nat.eqb (length bs) 24 then lfrom_canon (limbs_of_bytes bs) else None.
 (* to_repr: mont_reduce(self.0[0], self.0[1], self.0[2], 0, 0, 0); write_u64_into (little endian) *)
-Definition lto_canon (a : limbs) : limbs := let '(a0, a1, a2) := a in g_mont_reduce a0 a1 a2 0 0 0.
+Definition lto_canon (a : limbs) : limbs := let '(a0, a1, a2) := a in gl_mont_reduce a0 a1 a2 0 0 0.
 Definition bytes_of_limbs (a : limbs) : bytes :=
   let '(a0, a1, a2) := a in bytes_of_le 8 (Z.to_N a0) ++ bytes_of_le 8 (Z.to_N a1) ++ bytes_of_le 8 (Z.to_N a2).
 Definition lto_repr (a : limbs) : bytes := bytes_of_limbs (lto_canon a).
 (* From<u64>: Fp([val, 0, 0]) * R2 *)
-Definition lfrom_u64 (v : Z) : limbs := g_mul (v, 0, 0) R2.
+Definition lfrom_u64 (v : Z) : limbs := gl_mul (v, 0, 0) R2.
 (* is_odd: mont_reduce, low bit *)
 Definition lis_odd (a : limbs) : bool := let '(r0, _, _) := lto_canon a in Z.odd r0.
